@@ -110,6 +110,7 @@ class Init:
                 # `key=value` without blanks, or (TOML) with quoted keys
                 "sect_style": rng.choice(["plain", "plain", "plain", "indented", "tight", "quoted_keys", "tabs"]),
                 # leftovers of an interrupted earlier run or of an editor: not project files, must not matter
+                "latin1": rng.random() < 0.3,
                 "stale": rng.choice([None, None, None, ["bumpver.toml.tmp"], ["setup.cfg.tmp", "pyproject.toml.tmp"],
                                      ["bumpver.toml.bak", "pyproject.toml~"], [".bumpver.toml.swp", "pycalver.toml.tmp"]])}
 
@@ -148,6 +149,12 @@ class Init:
                 if files.get(name):
                     files[name] = padding + files[name]
             ctx.probe("long_config_file")
+        if case.get("latin1") and layout.get("setup.cfg") in ("unrelated_nl", "unrelated_nonl") and \
+                any(layout[n] != "absent" for n in CONFIGS if n != "setup.cfg"):
+            # an old setup.cfg saved as ISO-8859-1; it ranks last among the candidates and holds no bumpver section, so it is
+            # neither the file `init` writes to nor the one `show` reads
+            files["setup.cfg"] = files["setup.cfg"].replace(b"name = demo", b"name = demo\nauthor = Jos\xe9 M\xfcller")
+            ctx.probe("non_utf8_sibling_config")
         for name in case.get("stale") or []:
             files[name] = section("bumpver.toml", "2019.1001")
             ctx.probe("stale_scratch_file")
